@@ -9,7 +9,7 @@ from contracts.bounded_cmd import Bounded
 
 # representable Make names only (the property's exclusions: backslash, wildcards, `;`, `=`, tab, leading `~`)
 NAMES = ['plain', 'sp ace', 'do$llar', 'per%cent', 'ha#sh', "quo'te", 'co:lon', 'amp&er', 'com,ma', 'pa(r)en', 'ti~lde',
-         'pl+us', 'at@x', 'ex!cl', 'pi|pe']
+         'pl+us', 'at@x', 'ex!cl', 'pi|pe', '..cache', '...', '.hidden', '-dash']
 
 
 class DirectoryNames(Bounded):
@@ -36,12 +36,19 @@ class DirectoryNames(Bounded):
             # `output`: both trees have plain names; the outputs are placed in a subdirectory of that name
             sub = raw['name'] + '/' if raw['tree'] == 'output' else ''
             with open(src + '/build.bfg', 'w') as f:
-                f.write("project('m')\np = executable(%r, files=['main.c'])\nd = copy_file(%r, 'data.txt')\ndefault(p, d)\n"
-                        % (sub + 'p', sub + 'data.txt'))
+                f.write("project('m')\np = executable(%r, files=['main.c'], includes=['inc'])\nd = copy_file(%r, 'data.txt')\n"
+                        "l = copy_file(%r, 'da ta.txt', mode='symlink')\ndefault(p, d, l)\n"
+                        % (sub + 'p', sub + 'data.txt', sub + 'lnk.txt'))
+            # the header is only found through the per-target include option (a target-specific variable in Make)
+            os.makedirs(src + '/inc')
+            with open(src + '/inc/v.h', 'w') as f:
+                f.write('#define V 0\n')
             with open(src + '/main.c', 'w') as f:
-                f.write('int main(void) { return 0; }\n')
+                f.write('#include "v.h"\nint main(void) { return V; }\n')
             with open(src + '/data.txt', 'w') as f:
                 f.write('x\n')
+            with open(src + '/da ta.txt', 'w') as f:
+                f.write('linked\n')
             os.makedirs(top + '/bin')
             for name, mod in (('bfg9000', 'bfg9000.driver'), ('bfg9000-depfixer', 'bfg9000.depfixer')):
                 lp = top + '/bin/' + name
@@ -64,7 +71,8 @@ class DirectoryNames(Bounded):
                 return self.fail(case, raw, 'configure_succeeds', stderr=r.stderr[-400:])
             m = run(['make', '-C', b])
             b_out = b + '/' + sub
-            if m.returncode != 0 or not (os.path.exists(b_out + 'p') and os.path.exists(b_out + 'data.txt')):
+            if m.returncode != 0 or not (os.path.exists(b_out + 'p') and os.path.exists(b_out + 'data.txt') and
+                                         os.path.exists(b_out + 'lnk.txt') and open(b_out + 'lnk.txt').read() == 'linked\n'):
                 return self.fail(case, raw, 'build_creates_the_outputs', exit=m.returncode, output=(m.stdout + m.stderr)[-500:])
             m = run(['make', '-C', b])
             if m.returncode != 0 or 'Nothing to be done' not in m.stdout:
@@ -73,7 +81,7 @@ class DirectoryNames(Bounded):
             if m.returncode != 0 or os.path.exists(b_out + 'p') or os.path.exists(b_out + 'data.txt'):
                 return self.fail(case, raw, 'clean_removes_the_outputs', exit=m.returncode, output=(m.stdout + m.stderr)[-500:])
             before = sorted(os.listdir(src))
-            if before != ['build.bfg', 'data.txt', 'main.c']:
+            if before != ['build.bfg', 'da ta.txt', 'data.txt', 'inc', 'main.c']:
                 return self.fail(case, raw, 'source_tree_untouched', listing=before)
             return True
         finally:
